@@ -10,9 +10,16 @@ for id in $ids; do
     PYTHONHASHSEED=$hs /venv/bin/python check $id --digests quick:4711:0:$n 2>/dev/null | tail -1 > $tmp/$id.$hs &
   done
   wait
-  if cmp -s $tmp/$id.0 $tmp/$id.1 && cmp -s $tmp/$id.0 $tmp/$id.777 && [ -s $tmp/$id.0 ]; then
-    echo "$id: $n runs x 3 hash seeds identical ($(wc -c < $tmp/$id.0) bytes of digests)"
+  # the same runs preceded by different runs in the process (state leaking between runs would show here)
+  half=$((n / 2))
+  PYTHONHASHSEED=5 /venv/bin/python check $id --digests quick:4711:$half:$n 2>/dev/null | tail -1 > $tmp/$id.tail
+  leak=$(/venv/bin/python -c "
+import json,sys
+a=json.load(open('$tmp/$id.0')); b=json.load(open('$tmp/$id.tail'))
+print('same' if a[$half:]==b else 'DIFFERENT')")
+  if cmp -s $tmp/$id.0 $tmp/$id.1 && cmp -s $tmp/$id.0 $tmp/$id.777 && [ -s $tmp/$id.0 ] && [ "$leak" = same ]; then
+    echo "$id: $n runs x 3 hash seeds identical ($(wc -c < $tmp/$id.0) bytes of digests); second half alone in a fresh process: $leak"
   else
-    echo "$id: MISMATCH"; fi
+    echo "$id: MISMATCH (second half alone: $leak)"; fi
 done
 rm -rf $tmp
